@@ -47,7 +47,7 @@ func (h *H) advKeys() []advKey {
 	max := new(big.Int).Sub(new(big.Int).Lsh(big.NewInt(1), 256), big.NewInt(1))
 	limit := 3
 	if h.run.Thorough() {
-		limit = 12
+		limit = 6
 	}
 	// x = p + k, unreduced, with a valid y (both parities) and without
 	out = append(out, advKey{key33(2, p), "x = p"}, advKey{key33(3, p), "x = p, odd"})
@@ -157,7 +157,7 @@ func (h *H) adversarialCases() {
 			for _, sp := range []progShape{sch, std, msF, msL, ccF} {
 				h.sigCase(data, sp)
 			}
-			if s.note == "r=1 s=1" || h.run.Thorough() {
+			if s.note == "r=1 s=1" || (h.run.Thorough() && s.note == "r=n-1 s=n-1") {
 				h.runCase(data, []byte{0x21}, []bool{true}, []progShape{sch})
 				h.runCase(data, []byte{0x4B}, []bool{true}, []progShape{sch})
 				h.runCase(data, []byte{0x21}, []bool{true}, []progShape{std})
